@@ -124,7 +124,8 @@ def ntlm_scripts(work, tier, seed):
         for act, args in sq:
             a = [x.strip().strip('"') for x in (args or "").split(",")]
             if act == "Negotiate":
-                acts.append({"a": "neg", "s": a[0]})
+                # (every third script negotiates without the optional version field, as non-Windows clients do)
+                acts.append({"a": "neg", "s": a[0], "nover": len(scripts) % 3 == 1})
             elif act == "Authenticate":
                 acts.append({"a": "auth", "s": a[0], "u": a[1], "pw": a[2], "src": a[3], "dom": ["", "WORKGROUP", "example.com"][(len(scripts) + len(acts)) % 3]})
             elif act == "Replay":
